@@ -577,6 +577,7 @@ structure ViewOf (s : State) (sel : Sel) (κ1 : Nat → String) (s1 : State) (p 
   trail : arrTrail s1 q.arr = arrTrail s p.arr
   view : sel.view = true → q.arr = subArr p.arr sel
   copy : sel.view = false → s.heap.length ≤ q.arr.buf
+  oob : sel.oob = false
 
 /-- extension of ghost and state by allocation only. -/
 def AExt (κ : Nat → String) (s : State) (κ' : Nat → String) (s' : State) : Prop := Ext κ s κ' s' ∧ HeapExt s s'
@@ -584,7 +585,7 @@ def AExt (κ : Nat → String) (s : State) (κ' : Nat → String) (s' : State) :
 theorem ViewOf.mono {s : State} {sel : Sel} {κ1 κ2 : Nat → String} {s1 s2 : State} {p q : PropRef}
     (h : ViewOf s sel κ1 s1 p q) (hext : AExt κ1 s1 κ2 s2) : ViewOf s sel κ2 s2 p q := by
   obtain ⟨r1, r2, r3⟩ := hext.2.rows q.arr h.src.1.1
-  exact ⟨h.key, h.src.mono hext.1, h.len, r1.trans h.rows, r2.trans h.dt, r3.trans h.trail, h.view, h.copy⟩
+  exact ⟨h.key, h.src.mono hext.1, h.len, r1.trans h.rows, r2.trans h.dt, r3.trans h.trail, h.view, h.copy, h.oob⟩
 
 theorem getItem_views {κ : Nat → String} {s : State} (h : InvK κ s) (o : Nat) (sel : Sel)
     (hpos : ∀ p ∈ sel.pos, p < (s.obj o).natoms) (hselnd : sel.view = true → sel.pos.Nodup) :
@@ -607,7 +608,7 @@ theorem getItem_views {κ : Nat → String} {s : State} (h : InvK κ s) (o : Nat
     have hsub0 := hgh.rows (subArr p.arr sel) hp0.valid.1
     have hp0r := hgh.rows p.arr hp0.valid.1
     rw [post_bind]
-    rcases indexGet_cases p.arr sel st with ⟨e, he⟩ | ⟨hview, he⟩ | ⟨hview, he⟩
+    rcases indexGet_cases p.arr sel st with ⟨e, he⟩ | ⟨hview, hoob, he⟩ | ⟨hview, hoob, he⟩
     · apply Post.of_eq _ _ he
       exact ⟨g, ⟨hg, hge, hgh, hgo, hgs⟩, ⟨Ext.refl g st, HeapExt.refl st⟩, fun c hc => by cases hc⟩
     · apply Post.of_eq _ _ he
@@ -622,7 +623,7 @@ theorem getItem_views {κ : Nat → String} {s : State} (h : InvK κ s) (o : Nat
       have hcopy : sel.view = false → s.heap.length ≤ (subArr p.arr sel).buf := by
         intro hc; rw [hview] at hc; cases hc
       exact ⟨rfl, ⟨subArr_valid hpv sel hposl, hpk, subArr_nodup p.arr sel hp0.nodup hposl (hselnd hview)⟩,
-        by simp [subArr], hsub0.1, hp0r.2.1, hp0r.2.2, fun _ => rfl, hcopy⟩
+        by simp [subArr], hsub0.1, hp0r.2.1, hp0r.2.2, fun _ => rfl, hcopy, hoob⟩
     · apply Post.of_eq _ _ he
       simp only []
       rw [post_pure]
@@ -640,7 +641,7 @@ theorem getItem_views {κ : Nat → String} {s : State} (h : InvK κ s) (o : Nat
       have hnoview : sel.view = true →
           (⟨st.heap.length, List.range sel.pos.length⟩ : Arr) = subArr p.arr sel := by
         intro hc; rw [hview] at hc; cases hc
-      refine ⟨rfl, ⟨⟨by simp, ?_⟩, by simp [upd], List.nodup_range⟩, by simp, ?_, ?_, ?_, hnoview, fun _ => hgh.len⟩
+      refine ⟨rfl, ⟨⟨by simp, ?_⟩, by simp [upd], List.nodup_range⟩, by simp, ?_, ?_, ?_, hnoview, fun _ => hgh.len, hoob⟩
       · intro i hi
         rw [buf_append_eq]
         simpa [hlen] using hi
@@ -712,6 +713,7 @@ structure GetItemRes (s : State) (o : Nat) (sel : Sel) (o' : Nat) (s' : State) :
   objsLen : s'.objs.length = s.objs.length + 1
   syss : s'.syss = s.syss
   keys : (s'.obj o').keys = "atype" :: "pos" :: (s.obj o).keys.filter (fun k => k != "atype" && k != "pos")
+  oob : sel.oob = false
   cols : ∀ p ∈ (s.obj o).props, ∃ p' ∈ (s'.obj o').props, ColRel s sel s' p p'
   colsRev : ∀ p' ∈ (s'.obj o').props, ∃ p ∈ (s.obj o).props, ColRel s sel s' p p'
 
@@ -757,7 +759,10 @@ theorem getItemRes_of_built {κ κ1 : Nat → String} {s s1 s' : State} (h : Inv
       have h1 : q.arr.idx.length ≠ 1 := by rw [hvo.len]; exact hne
       rw [hcol.same h1]
       exact hvo.view hv
-  refine ⟨rfl, ?_, hheap.trans hb.heap, ?_, ?_, hb.syss.trans hsys, ?_, ?_, ?_⟩
+  have hoob : sel.oob = false := by
+    obtain ⟨p, _, hv⟩ := hviews.mem_right qa hqa
+    exact hv.oob
+  refine ⟨rfl, ?_, hheap.trans hb.heap, ?_, ?_, hb.syss.trans hsys, ?_, hoob, ?_, ?_⟩
   · rw [hb.natoms, ← hlen, obj_push_eq]
   · intro o'' ho''
     rw [hb.objs o'' (Nat.ne_of_lt ho''), obj_push_lt _ _ _ (by rw [hlen]; exact ho'')]
@@ -906,7 +911,7 @@ theorem deepcopy_views {κ : Nat → String} {s : State} (h : InvK κ s) (o : Na
     have hnoview : (copySel (s.obj o).natoms).view = true →
         (⟨st.heap.length, List.range (arrRows s p.arr).length⟩ : Arr) = subArr p.arr (copySel (s.obj o).natoms) := by
       intro hc; simp [copySel] at hc
-    refine ⟨rfl, ⟨⟨by simp, ?_⟩, by simp [upd], List.nodup_range⟩, by simp [copySel, hlen], ?_, ?_, ?_, hnoview, fun _ => hgh.len⟩
+    refine ⟨rfl, ⟨⟨by simp, ?_⟩, by simp [upd], List.nodup_range⟩, by simp [copySel, hlen], ?_, ?_, ?_, hnoview, fun _ => hgh.len, rfl⟩
     · intro i hi
       rw [buf_append_eq]
       simpa using hi
